@@ -29,6 +29,7 @@ def instances(tier, seed):
     for sname, rp, ax in idn:
         for a in ([ax] if tier == 'quick' else [0, 1, 2]):
             add(f"self:{sname}:{rp}:axis{a}", struct=sname, repl=rp, axes=[a], other=(0.35, 0.9, 0.6), mode='self', st_terms=True, charges=True,
+                pat_charges=(sname in ('S1', 'S5', 'S3')), joint_translate=('sym' if sname in ('S2', 'S4') else None),
                 symmetric=sname in ('S12', 'S8'), cost=30)
     add("self:S1:chiral4->chiral4:replace_all", struct='S1', repl='chiral4->chiral4', axes=[2], other=(0.35, 0.9, 0), mode='self-sites', replace_all=True, cost=20)
     aba = [('S6', 'single->F', 'singleF->H', 1), ('S1', 'chiral4->CHSP', 'chiralCHSP->chiral4', 2), ('S6', 'single->F', 'singleF->H', 0),
@@ -51,6 +52,7 @@ def body(ctx, p):
     R = run_e2e(ctx, p)
     st, res = R['st'], R['res']
     N = len(R['els'])
+    check_patterns_untouched(ctx, R)
     if p['mode'] == 'self':
         ctx.observe('count', int(R['count']))
         ctx.require('all planted occurrences matched', int(R['count']) == len(R['occ']))
